@@ -212,6 +212,23 @@ def run(ctx):
     ctx.rule("C10-cross-mult", "ratios are compared by lhs.num*rhs.den against rhs.num*lhs.den, in that order")
     d_cross = numtables.rule_cross(ctx, "C10-cross-mult")
     ctx.guarded("C10-cross-mult", d_cross >= 3, lambda: cross_mult(ctx, fb))
+    # the grids above take denominators positive: the comparison of a ratio stored with a negative denominator comes out inverted
+    # (cross-multiplication is sign-naive).  That every ratio the arithmetic builds has a positive denominator is the sign analysis of
+    # C09, re-run here because the order of computed ratios depends on it
+    ctx.rule("C10-denominator-sign", "every ratio the arithmetic can build has a positive denominator — the precondition of comparing ratios "
+                                     "by cross-multiplication (sign analysis of the ratio constructors, shared with C09)")
+    from .ctx import Ctx as _Ctx10
+    from . import c09 as _c09
+    sub10 = _Ctx10("C09", ctx.tier, ctx.seed)
+    sub10._fb = ctx._fb
+    _c09.range_and_sign(sub10, fb)
+    neg10 = [r for r in sub10.reports if r["rule"] == "C09-denominator-sign"]
+    ctx.inst("C10-denominator-sign", "ratio-constructors", {"with_nonpositive_denominator": len(neg10)})
+    ctx.oblige(not neg10)
+    for r in neg10:
+        ctx.report("C10-denominator-sign", "negative-denominator/" + r["key"].split("/", 1)[1], "a ratio with a non-positive denominator can be "
+                   "built, and < > <= >= max min on it are inverted (ratios are compared by cross-multiplication, which assumes positive "
+                   "denominators): " + r["msg"], r["where"])
 
     # ------------------------------------------------------------------ C10-eqv
     ctx.rule("C10-eqv", "eqv? on numbers is true only for the same exactness class")
